@@ -26,7 +26,8 @@ type C08Case struct {
 // whitespace admissible between a tag keyword and what follows it
 var kwSpaces = []string{" ", "\t", "\n", "  ", " \n ", "\r\n"}
 
-var c08PosNames = []string{"print", "if", "elseif", "set", "for-seq", "include-with", "filter-arg", "function-arg", "macro-arg", "array-elem", "hash-value"}
+var c08PosNames = []string{"print", "if", "elseif", "set", "for-seq", "include-with", "filter-arg", "function-arg", "macro-arg", "array-elem", "hash-value",
+	"for-seq-default-of-null", "for-seq-default-of-undefined", "for-seq-conditional", "for-seq-filtered-list"}
 
 // c08Wrap builds the observer templates around the expression text x (of type typ). The
 // model side of each position is a fixed function of the expression's value.
@@ -72,6 +73,15 @@ func c08Wrap0(pos int, x string) map[string]string {
 		return map[string]string{"main": "{{ [0, " + x + "]|last }}"}
 	case 10:
 		return map[string]string{"main": "{{ {'k': " + x + "}['k'] }}"}
+	// the for sequence written as a filter chain on an empty base, a conditional, a filtered list
+	case 11:
+		return map[string]string{"main": "{% for i in nul|default([" + x + "]) %}<{{ i }}>{% endfor %}"}
+	case 12:
+		return map[string]string{"main": "{% for i in c08undefined|default([" + x + "]) %}<{{ i }}>{% else %}EMPTY{% endfor %}"}
+	case 13:
+		return map[string]string{"main": "{% for i in t ? [" + x + "] : [] %}<{{ i }}>{% endfor %}"}
+	case 14:
+		return map[string]string{"main": "{% for i in [" + x + "]|merge([]) %}<{{ i }}>{% else %}EMPTY{% endfor %}"}
 	}
 	panic("pos")
 }
@@ -90,7 +100,7 @@ func c08Expect(pos int, v interface{}) (string, error) {
 	switch pos {
 	case 3:
 		return "[" + s + "]", nil
-	case 4:
+	case 4, 11, 12, 13, 14:
 		return "<" + s + ">", nil
 	case 5:
 		return "(" + s + ")", nil
@@ -204,7 +214,7 @@ func c08Classify(c C08Case) (bool, []string) {
 	return nt, classes
 }
 
-const c08Rule = "type-directed random expression trees (depth<=5) over ints, strings, booleans, lists, maps, attribute/index access, unary, all binary operators of the table, ?:, filters, functions and spies, each printed minimally and fully parenthesised with random inter-token whitespace and placed in one of 11 syntactic positions; non-trivial = >=2 binary operators of different precedence, or a unary/conditional operator next to a binary one, or a non-print position; distinct by (context, tree, position)"
+const c08Rule = "type-directed random expression trees (depth<=5) over ints, strings, booleans, lists, maps, attribute/index access, unary, all binary operators of the table, ?:, filters, functions and spies, each printed minimally and fully parenthesised with random inter-token whitespace and placed in one of 15 syntactic positions (the for sequence also as a filter chain on a null / undefined base, a conditional and a filtered list); containers of `in` include a 60-element list and range(-10, 49); non-trivial = >=2 binary operators of different precedence, or a unary/conditional operator next to a binary one, or a non-print position; distinct by (context, tree, position)"
 
 func TestC08Expr(t *testing.T) {
 	r := NewRec(t, "C08", c08Rule)
@@ -432,7 +442,95 @@ func TestC08Spacing(t *testing.T) {
 	}
 }
 
+// ---- spacing around signs (raw spellings the tree printer never produces) ------------------------
+
+type C08RawCase struct {
+	Pattern string `json:"pattern"` // U+00B7 marks the places where whitespace may stand
+	Pos     int    `json:"pos"`
+	Variant []int  `json:"variant"` // whitespace code per mark, compared with single spaces everywhere
+}
+
+var c08RawWs = []string{"", " ", "\n", "  "}
+
+func c08RawSrc(pattern string, variant []int, pos int) map[string]string {
+	parts := strings.Split(pattern, "\u00b7")
+	var b strings.Builder
+	for i, p := range parts {
+		b.WriteString(p)
+		if i < len(parts)-1 {
+			w := 1
+			if i < len(variant) {
+				w = variant[i]
+			}
+			b.WriteString(c08RawWs[w%len(c08RawWs)])
+		}
+	}
+	return c08Wrap(pos, b.String())
+}
+
+func checkC08Raw(c C08RawCase) error {
+	ctx := map[string]interface{}{"a": 7, "b": 3, "s": "abc", "xs": []interface{}{3, 7}, "m": map[string]interface{}{"k": 4}, "t": true}
+	n := strings.Count(c.Pattern, "\u00b7")
+	base := make([]int, n)
+	for i := range base {
+		base[i] = 1
+	}
+	tb := c08RawSrc(c.Pattern, base, c.Pos)
+	tv := c08RawSrc(c.Pattern, c.Variant, c.Pos)
+	rb := render(newEngine(tb), "main", ctx)
+	rv := render(newEngine(tv), "main", ctx)
+	if rb.Panic != "" || rv.Panic != "" {
+		return fmt.Errorf("panic: %v / %v", rb, rv)
+	}
+	if rb.Failed() != rv.Failed() || rb.Out != rv.Out {
+		return fmt.Errorf("%s gives %v but %s gives %v: the spacing changed the value", q(tb["main"]), rb, q(tv["main"]), rv)
+	}
+	return nil
+}
+
+var c08RawPatterns = []string{"-\u00b75|abs", "-\u00b7a|abs", "+\u00b75|abs", "-\u00b75\u00b7|\u00b7abs", "-\u00b75\u00b7+\u00b73", "3\u00b7-\u00b7-\u00b75", "3\u00b7+\u00b7-\u00b75|abs", "-\u00b7a\u00b7*\u00b7-\u00b7b",
+	"[-\u00b71,\u00b7-\u00b72]|join(',')", "t\u00b7?\u00b7-\u00b71\u00b7:\u00b7-\u00b72", "max(-\u00b71,\u00b7-\u00b7a)", "-\u00b75|abs\u00b7+\u00b7-\u00b75|abs", "(-\u00b75)|abs", "-\u00b7xs[0]", "-\u00b7m.k", "-\u00b7(5)|abs",
+	"-\u00b72\u00b7^\u00b72", "2\u00b7^\u00b7-\u00b71|abs", "a\u00b7-\u00b71", "a\u00b7-1", "a -\u00b71", "-\u00b75|abs|abs", "-\u00b7a|default(1)", "xs|length\u00b7-\u00b71", "{'k':\u00b7-\u00b71}['k']", "-\u00b71\u00b7..\u00b7-\u00b73"}
+
+// TestC08RawSpacing: whitespace between a sign and its operand, and around postfix filters,
+// never changes the value (no claim about which value it is).
+func TestC08RawSpacing(t *testing.T) {
+	r := NewRec(t, "C08", "exhaustive: 26 spellings with signs next to literals, variables, postfix filters, indexes and other operators; at every marked place each of {nothing, space, newline, two spaces} (all places alike, and each place alone), in print / if / set position; oracle: same result as with single spaces everywhere; non-trivial = always")
+	defer r.Flush()
+	r.SetExhaustive()
+	for _, p := range c08RawPatterns {
+		n := strings.Count(p, "\u00b7")
+		var variants [][]int
+		for w := range c08RawWs {
+			all := make([]int, n)
+			for i := range all {
+				all[i] = w
+			}
+			variants = append(variants, all)
+			for k := 0; k < n; k++ {
+				one := make([]int, n)
+				for i := range one {
+					one[i] = 1
+				}
+				one[k] = w
+				variants = append(variants, one)
+			}
+		}
+		for _, v := range variants {
+			for _, pos := range []int{0, 1, 3} {
+				c := C08RawCase{Pattern: p, Pos: pos, Variant: v}
+				src := c08RawSrc(p, v, pos)["main"]
+				r.Case(src, true, src)
+				if err := checkC08Raw(c); err != nil {
+					r.FailEnum(t, "C08.raw", c, err)
+				}
+			}
+		}
+	}
+}
+
 func init() {
+	reg("C08.raw", checkC08Raw)
 	reg("C08.expr", checkC08)
 	_ = strings.Join
 }
